@@ -147,6 +147,34 @@ pub fn cases(ctx: &Ctx) -> Vec<Case> {
         s.settle_ms = 100;
         out.push(Case { id: format!("lockstep-k{k}-d{}-lat{lat}-fps{}-{j}", s.delay, s.fps), scn: s, k, lat, pause_at: 1500, ping_only: false, after_drop: false });
     }
+    // zero latency and very fast pollers (1000 polls per tick: a round trip of about 0.03 ms, so the library's millisecond
+    // clock measures 0 ms round trips), with one hiccup of 250 ms - longer than the report interval, so a quality report is
+    // certainly in flight during it - that leaves one side 15 frames behind: the ping must come back to 0, not stay at the
+    // hiccup (round-7 seed C15; with the documented 8 polls per tick a round trip is never below 2 ms in the simulation)
+    for j in 0..ctx.n(4, 48) {
+        let mut rr = r.fork(0x5500_0000 + j as u64);
+        let mut s = Scn::base(rr.next());
+        s.peers = vec![vec![0], vec![1]];
+        s.fps = 60;
+        s.mp = 24;
+        s.delay = rr.pick(&[0usize, 2]);
+        s.frames = 600;
+        s.link = Link::clean(0);
+        s.notify_ms = 20_000;
+        s.timeout_ms = 30_000;
+        s.start = Start::AllRunning;
+        let slow = (j % 2) as usize;
+        for n in 0..2 {
+            let mut c = NodeCfg { polls_per_tick: 1000, jitter_ms: 0, ..Default::default() };
+            if n == slow {
+                c.pauses.push((1500, 1750));
+            }
+            s.nodes.push(c);
+        }
+        s.settle_ms = 100;
+        let k = if slow == 1 { 15 } else { -15 };
+        out.push(Case { id: format!("zerolat-k{k}-{j}"), scn: s, k, lat: 0, pause_at: 1500, ping_only: false, after_drop: false });
+    }
     // a third peer that lags behind, dies and is dropped: afterwards the two survivors' estimates must be about each other
     // only (level: about zero, no wait recommendation; a lead of k: +k / -k)
     for j in 0..ctx.n(36, 600) {
@@ -372,7 +400,7 @@ pub fn check(ctx: &Ctx) -> i32 {
     let res = par_run(ctx, &cs, &|c: &Case| c.id.clone(), &run_case);
     let meta = Meta {
         level: "exploration",
-        rule: "two peers over a clean link with symmetric latency {0,5,10,20,50,100} ms, equal input delays, fps {30,60,120}, polling 8 times per frame (as the documented main loop does); a lead k in -7..=7 is produced by letting one side sleep |k| frames once both are Running; 900 frames. The true lead is MEASURED from the harness's own record of both game frames at the same virtual instant. Over the steady part (after the sleep, 90 frames and 700 ms of warm-up; only if the measured lead varies by at most 2): frames_ahead() of A within 1 of the measured lead interval, of B within 1 of its negation, their sum within 1 of zero; network_stats().ping in [2l, 2l + one tick] (judged whether or not the lead was steady); remote_frames_behind equals the other side's local_frames_behind whenever that was constant for 3 report intervals; every WaitRecommendation has skip_frames == frames_ahead() >= 3 and successive ones are >= 60 frames apart; network_stats returns only NotSynchronized/NotEnoughData, never numbers, during the first second after session creation. A fourth family (lostreport) loses exactly one quality report and/or reply (a 210 ms outage of those message kinds in one direction) before the lead is established. A third family (afterdrop) adds a third peer that lags 8 frames, dies and is dropped (timeout 500 ms); the two survivors are then judged exactly like a two-peer session, from 90 frames + 700 ms after the drop. A fifth family (lockstep) runs window 0 with input delays {4,6,8}, where the delay lets one side lead by up to delay - latency - 2 frames; judged exactly like the grid. A second family (slowpeer) has the other side poll only once per tick at latencies 85..100 ms and fps {20,30,60}, so that its quality replies arrive after the observer's next report went out; there only the observer's ping (2l .. 2l + one tick of the peer + one poll interval of the observer + 4 ms of tick jitter and rounding) and the not-enough-data clause are judged. Non-trivial: a steady window was judged. Distinct: grid cell + trace hash.".into(),
+        rule: "two peers over a clean link with symmetric latency {0,5,10,20,50,100} ms, equal input delays, fps {30,60,120}, polling 8 times per frame (as the documented main loop does); a lead k in -7..=7 is produced by letting one side sleep |k| frames once both are Running; 900 frames. The true lead is MEASURED from the harness's own record of both game frames at the same virtual instant. Over the steady part (after the sleep, 90 frames and 700 ms of warm-up; only if the measured lead varies by at most 2): frames_ahead() of A within 1 of the measured lead interval, of B within 1 of its negation, their sum within 1 of zero; network_stats().ping in [2l, 2l + one tick] (judged whether or not the lead was steady); remote_frames_behind equals the other side's local_frames_behind whenever that was constant for 3 report intervals; every WaitRecommendation has skip_frames == frames_ahead() >= 3 and successive ones are >= 60 frames apart; network_stats returns only NotSynchronized/NotEnoughData, never numbers, during the first second after session creation. A fourth family (lostreport) loses exactly one quality report and/or reply (a 210 ms outage of those message kinds in one direction) before the lead is established. A third family (afterdrop) adds a third peer that lags 8 frames, dies and is dropped (timeout 500 ms); the two survivors are then judged exactly like a two-peer session, from 90 frames + 700 ms after the drop. A fifth family (lockstep) runs window 0 with input delays {4,6,8}, where the delay lets one side lead by up to delay - latency - 2 frames; judged exactly like the grid. A sixth family (zerolat): latency 0, both sides polling 1000 times per tick (round trips of about 0.03 ms, measured as 0 ms by the library's millisecond clock) and one hiccup of 250 ms; judged like the grid. A second family (slowpeer) has the other side poll only once per tick at latencies 85..100 ms and fps {20,30,60}, so that its quality replies arrive after the observer's next report went out; there only the observer's ping (2l .. 2l + one tick of the peer + one poll interval of the observer + 4 ms of tick jitter and rounding) and the not-enough-data clause are judged. Non-trivial: a steady window was judged. Distinct: grid cell + trace hash.".into(),
         assumptions: std_assumptions(),
         floor_nontrivial: if ctx.quick() { 150 } else { 1000 },
         exhaustive: None,
